@@ -142,13 +142,37 @@ func leaves(n *gen.Node, out *[]*gen.Node) {
 	}
 }
 
-func mutateLeaf(t *tamper, l *gen.Node) {
+// mutateLeaf changes one scalar; the returned suffix names the special case "an integer replaced by a
+// different integer that has the same float64 image" (see D15), else it is empty.
+func mutateLeaf(t *tamper, l *gen.Node) string {
+	// a number and the string with the same digits are different values
+	if t.draw(4, "mut:retype") == 3 {
+		switch l.Kind {
+		case gen.KInt:
+			l.Kind, l.S = gen.KStr, fmt.Sprint(l.I)
+			return ""
+		case gen.KFloat:
+			l.Kind, l.S = gen.KStr, strings.TrimSuffix(string(gen.Float(l.F).ToJSON(nil)), ".0")
+			return ""
+		case gen.KBool:
+			l.Kind, l.S = gen.KStr, fmt.Sprint(l.B)
+			return ""
+		}
+	}
 	switch l.Kind {
 	case gen.KStr, gen.KOther:
 		l.Kind = gen.KStr
 		l.S = mutateString(t, l.S)
 	case gen.KInt:
-		l.I++
+		old := l.I
+		if l.I > 1<<53 && t.draw(2, "mut:int-down") == 1 {
+			l.I--
+		} else {
+			l.I++
+		}
+		if float64(old) == float64(l.I) {
+			return ".integer-to-another-with-the-same-float64-image"
+		}
 	case gen.KFloat:
 		if l.F == -1 {
 			l.F = 7
@@ -161,6 +185,7 @@ func mutateLeaf(t *tamper, l *gen.Node) {
 		l.Kind = gen.KStr
 		l.S = "was-null"
 	}
+	return ""
 }
 
 // sigParts splits a compact detached JWS "h..s".
@@ -316,8 +341,7 @@ func (t *tamper) apply(kind int) string {
 					cfg.Set("injected", gen.Bool(true))
 					return "add.config-key"
 				}
-				mutateLeaf(t, ls[t.draw(len(ls), "mut:leaf")])
-				return "corrupt.config-leaf"
+				return "corrupt.config-leaf" + mutateLeaf(t, ls[t.draw(len(ls), "mut:leaf")])
 			case 1:
 				k := "injected"
 				for cfg.Has(k) {
@@ -840,7 +864,38 @@ func runC01(c *engine.Ctx) {
 		}
 		var undo func()
 		name := ""
-		switch c.Sched.Draw(4, "mem:kind") {
+		switch c.Sched.Draw(5, "mem:kind") {
+		case 4:
+			// a matrix that carries extra keys NAMED like its typed fields (as interpolation of an unknown key can
+			// produce): sign it as it is, then change the real setup
+			if cs.Matrix == nil || len(cs.Matrix.Setup) == 0 {
+				return
+			}
+			oldRF, oldSig := cs.Matrix.RemainingFields, cs.Signature
+			rf := map[string]any{"setup": map[string]any{"shadow": []any{"x"}}, "adjustments": []any{}}
+			for k, v := range oldRF {
+				rf[k] = v
+			}
+			cs.Matrix.RemainingFields = rf
+			var sig *pipeline.Signature
+			var serr error
+			c.Guard("C01.panic", "Sign step with shadowing matrix keys", func() {
+				sig, serr = signature.Sign(context.Background(), kp.priv, &signature.CommandStepWithInvariants{CommandStep: *cs, RepositoryURL: repoURL}, signature.WithEnv(u.signEnv))
+			})
+			if serr != nil {
+				cs.Matrix.RemainingFields = oldRF
+				return
+			}
+			cs.Signature = sig
+			var d0 string
+			var v0 []string
+			for d, vals := range cs.Matrix.Setup {
+				d0, v0 = d, vals
+				break
+			}
+			cs.Matrix.Setup[d0] = append(append([]string{}, v0...), "tampered")
+			name = "memory.matrix-setup-shadowed-by-extra-key"
+			undo = func() { cs.Matrix.Setup[d0] = v0; cs.Matrix.RemainingFields = oldRF; cs.Signature = oldSig }
 		case 0:
 			old := cs.Command
 			cs.Command, name = old+" # tampered", "memory.command"
